@@ -15,7 +15,13 @@ from puresnmp.adt import (
     V3Flags,
 )
 from puresnmp.credentials import V3, Credentials
-from puresnmp.pdu import PDU, GetRequest
+from puresnmp.pdu import (
+    PDU,
+    BulkGetRequest,
+    GetRequest,
+    InformRequest,
+    SetRequest,
+)
 from puresnmp.plugins.mpm import AbstractEncodingResult, MessageProcessingModel
 from puresnmp.plugins.security import SecurityModel
 from puresnmp.plugins.security import create as create_sm
@@ -29,7 +35,11 @@ def is_confirmed(pdu: PDU) -> bool:
     Return True if the given PDU instance expects a response.
     """
     # XXX TODO This might be doable cleaner with subclassing in puresnmp.pdu
-    return isinstance(pdu, GetRequest)
+    # GetNextRequest is a subclass of GetRequest. See rfc3411#section-2.8 for
+    # the list of confirmed-class PDUs.
+    return isinstance(
+        pdu, (GetRequest, SetRequest, BulkGetRequest, InformRequest)
+    )
 
 
 TV3SecModel = SecurityModel[PlainMessage, Union[PlainMessage, EncryptedMessage]]
